@@ -210,7 +210,8 @@ PostCall(run, id, args, sh) == CallBlock(run.sc, run.lt, id, args, sh, 1, TRUE)
 (* it is reused, else a new shared slot is given to both.                    *)
 (* vars[S][x]: -3 absent, -2 parameter, -1 unassigned, >= 0 shared slot      *)
 
-SetToSeq(s) == CHOOSE q \in [1..Cardinality(s) -> s] : Range(q) = s
+RECURSIVE SetToSeq(_)
+SetToSeq(s) == IF s = {} THEN <<>> ELSE LET x == CHOOSE y \in s : TRUE IN <<x>> \o SetToSeq(s \ {x})
 
 InitVars(sc) == [S \in DOMAIN sc |-> [x \in Names |->
                     IF x # "" /\ x = sc[S].param THEN -2 ELSE IF x \in sc[S].names THEN -1 ELSE -3]]
